@@ -249,7 +249,12 @@ func runE2E(c caseT) obsT {
 				case "ADD":
 					_, err = col.Add(ids[st.E.ID], msg(st.E.New))
 				case "UPDATE":
-					_, err = col.Update(ids[st.E.ID], msg(st.E.New))
+					// (every other run writes its updates as upserts: an upsert of an existing item is an update too)
+					if c.N%2 == 0 {
+						_, err = col.Update(ids[st.E.ID], msg(st.E.New), resource.WithCreateIfAbsent())
+					} else {
+						_, err = col.Update(ids[st.E.ID], msg(st.E.New))
+					}
 				case "REMOVE":
 					_, err = col.Delete(ids[st.E.ID])
 				}
